@@ -2,7 +2,7 @@
   C01 — Symbolic tree integrity. Property theorems only (model: PgModel/Sym*.lean,
   lemmas: PgProofs/Sym*.lean).
 -/
-import PgProofs.SymLocal
+import PgProofs.SymLookup
 namespace Pg.Sym
 
 example : (Forest.empty).wf = true := by decide
@@ -326,6 +326,28 @@ theorem C01_relocate (h : Nat) (p : List Key) (t : Tree) (hok : t.okRoot = true)
 /-- a removed / replaced value is a well-formed tree of its own. -/
 theorem C01_detached (kind : Kind) (h : Nat) (p : List Key) (t : Tree) (hok : t.okSub h p = true) :
     (detachFrom kind t).okRoot = true := detachFrom_ok kind hok
+
+/-- **Lookup**: in a well-formed tree (beliefs agree with positions, list keys are positions,
+dict keys are distinct), looking the believed path of any node — relative to the root's own
+believed path — up from the root returns that very node. -/
+theorem C01_lookup (rm : Meta) (rits : Items) (hok : (Tree.node rm rits).okRoot = true)
+    (hsh : (Tree.node rm rits).shapeOk = true) (s : Tree) (hs : s ∈ (Tree.node rm rits).subnodes) :
+    (Tree.node rm rits).query (s.pathOf.drop rm.path.length) = some s := by
+  have hat : (Tree.node rm rits).okAt rm.parent rm.path = true := by
+    rw [okAt_node]; exact ⟨⟨rfl, rfl⟩, hok⟩
+  obtain ⟨rest, hp, hq⟩ := lookup_sub rm.parent rm.path _ hat hsh s hs
+  rw [hp, List.drop_left]
+  exact hq
+
+/-- … in particular two different nodes of a well-formed tree never report the same path. -/
+theorem C01_paths_distinct (rm : Meta) (rits : Items) (hok : (Tree.node rm rits).okRoot = true)
+    (hsh : (Tree.node rm rits).shapeOk = true) (s s' : Tree) (hs : s ∈ (Tree.node rm rits).subnodes)
+    (hs' : s' ∈ (Tree.node rm rits).subnodes) (hpath : s.pathOf = s'.pathOf) : s = s' := by
+  have h1 := C01_lookup rm rits hok hsh s hs
+  have h2 := C01_lookup rm rits hok hsh s' hs'
+  rw [hpath] at h1
+  rw [h1] at h2
+  exact Option.some.inj h2
 
 /-! ## Counterexamples: the defective entry points of the pinned tree (each replayed on the
 real code by the findings witnesses of findings/C01.json). -/
